@@ -69,14 +69,15 @@ type sim struct {
 	paused map[int]bool
 	meta   map[int]gpos // last positions observed for every group ever created (= its meta page)
 	// oracle state
-	reset     bool // an explicit index reset happened in this case: clauses (1) and (5) are suspended
-	backReset bool // a backwards SetAppendedSeq happened (stale index entries may exist above appended)
-	dead      bool // a panic happened (or a parked call could not be observed): the case is abandoned
-	nops      int
-	park      *parkedCall // the Consume call currently parked in NotEmpty (at most one)
-	preSnap   *snapshot   // "before" of the next op, taken before its goroutines were started
-	dormant   map[int]bool // groups that exist (ConsumerGroupNames) but were not looked up since reopenlazy
-	expect    map[int]gpos // what such a group must come back as
+	reset        bool // an explicit index reset happened in this case: clauses (1) and (5) are suspended
+	backReset    bool // a backwards SetAppendedSeq happened (stale index entries may exist above appended)
+	dead         bool // a panic happened (or a parked call could not be observed): the case is abandoned
+	nops         int
+	park         *parkedCall  // the Consume call currently parked in NotEmpty (at most one)
+	preSnap      *snapshot    // "before" of the next op, taken before its goroutines were started
+	dormant      map[int]bool // groups that exist (ConsumerGroupNames) but were not looked up since reopenlazy
+	expect       map[int]gpos // what such a group must come back as
+	dormantDirty bool         // SetAppendedSeq ran while groups were dormant (it moves them too)
 }
 
 // parkedCall is a Consume call running on its own goroutine, blocked in Queue.NotEmpty.
@@ -107,6 +108,7 @@ func (s *sim) openMode(lazy bool) error {
 	s.paused = map[int]bool{}
 	s.dormant = map[int]bool{}
 	s.expect = map[int]gpos{}
+	s.dormantDirty = false
 	for _, n := range fq.ConsumerGroupNames() {
 		id, err := strconv.Atoi(n)
 		if err != nil {
@@ -204,7 +206,7 @@ func (s *sim) oracle(kind string, g int, n int64, res string, b, a snapshot, met
 				}
 			}
 		}
-		if (kind == "sync" || kind == "createsync") && a.ack != b.ack && !s.reset {
+		if (kind == "sync" || kind == "createsync") && a.ack != b.ack && !s.dormantDirty {
 			// groups that exist but were not looked up since the reopen count as well
 			for id := range s.dormant {
 				if e := s.expect[id]; a.ack > e.a {
@@ -329,12 +331,12 @@ func (s *sim) oracle(kind string, g int, n int64, res string, b, a snapshot, met
 		if s.dormant[g] {
 			// first lookup since reopenlazy: the group was restored by NewFanOutQueue, nothing can
 			// have moved it since
-			if e := s.expect[g]; ap != e && !s.reset {
+			if e := s.expect[g]; ap != e && !s.dormantDirty {
 				s.fail("reopen-changes-group-position", "group %d: %v when the queue was reopened, %v when first looked up afterwards (queue ack %d)", g, e, ap, a.ack)
 			}
 			delete(s.dormant, g)
 			delete(s.expect, g)
-		} else if m, had := metaBefore[g]; had && !live && !s.reset {
+		} else if m, had := metaBefore[g]; had && !live {
 			ea := m.a
 			if a.ack > ea {
 				ea = a.ack
@@ -406,9 +408,22 @@ func (s *sim) oracle(kind string, g int, n int64, res string, b, a snapshot, met
 				s.fail("reopen-loses-group", "group %d not restored", id)
 			case q == p:
 			case s.reset:
-				// after an explicit reset a group may sit below the queue ack or have ack > consumed;
-				// what NewConsumerGroup makes of such a meta page is compared with the model only
-				s.c.Branch("reopen-normalises-reset-group")
+				// after an explicit reset a group may sit below the queue ack or have ack > consumed:
+				// NewConsumerGroup lifts ack to the queue ack and consumed to ack. The reset is exempt
+				// from the ordering clause, not from persistence: apart from that lift the positions
+				// must be the ones the group had.
+				e := p
+				if a.ack > e.a {
+					e.a = a.ack
+				}
+				if e.a > e.c {
+					e.c = e.a
+				}
+				if q == e {
+					s.c.Branch("reopen-normalises-reset-group")
+				} else {
+					s.fail("reopen-changes-group-position", "after an explicit reset: group %d: %v -> %v (queue ack %d; lifted it would be %v)", id, p, q, a.ack, e)
+				}
 			case q.c == p.c && p.a < a.ack && q.a == a.ack:
 				s.fail(keyReopenLift, "group %d had positions %v before close and %v after reopen (queue ack %d)", id, p, q, a.ack)
 			default:
@@ -613,6 +628,9 @@ func (s *sim) doSetAppended(n int64) {
 	}
 	if n < app {
 		s.backReset = true
+	}
+	if len(s.dormant) > 0 {
+		s.dormantDirty = true
 	}
 	s.reset = true
 	s.op("setapp", -1, n, fmt.Sprintf("setapp %d", n), func() string { s.fq.SetAppendedSeq(n); return "ok" })
@@ -1338,7 +1356,7 @@ func (a area) Run(c *core.Ctx) error {
 		c.Begin(i)
 		rng := c.Rng(i)
 		kind := caseKind(i, c.Tier, rng)
-		dir, err := scratch(kind == "pages")
+		dir, err := scratch(kind == "pages" || kind == "index-pages-many")
 		if err != nil {
 			return err
 		}
@@ -1364,6 +1382,10 @@ func (a area) Run(c *core.Ctx) error {
 				s.casePages(rng, i)
 			case "index-pages":
 				s.caseIndexPages(rng)
+			case "index-pages-many":
+				s.caseIndexPagesMany(rng)
+			case "reset-persist":
+				s.caseResetPersist(rng)
 			case "parked-fixed":
 				s.caseParkedFixed(rng)
 			case "parked-forward":
@@ -1410,6 +1432,10 @@ func caseKind(i int, tier string, rng *rand.Rand) string {
 		return "race-fixed"
 	case 7:
 		return "lazy-fixed"
+	case 8:
+		return "index-pages-many"
+	case 9:
+		return "reset-persist"
 	}
 	if tier == "thorough" && i%40 == 7 {
 		return "pages"
@@ -1579,6 +1605,73 @@ func (s *sim) caseIndexPages(rng *rand.Rand) {
 	s.doSync()
 	s.doGC(rng)
 	s.get(app + 1)
+}
+
+// caseIndexPagesMany: eleven index pages (ids 0..10, two decimal digits), so that the directory
+// order of the page files differs from their numeric order after a reopen. Bulk one-byte appends.
+func (s *sim) caseIndexPagesMany(rng *rand.Rand) {
+	const ipp = 262144
+	s.doCreate(0)
+	s.doCreate(1)
+	s.doAppendN(10*ipp+40+rng.Intn(100), 1) // appended lies in index page 10
+	s.pages()
+	app := s.fq.Queue().AppendedSeq()
+	// into page 9, GC (pages 0..8 go), reopen with 9.bat and 10.bat on disk
+	p9 := int64(9*ipp + 5 + rng.Intn(1000))
+	s.doSetConsumed(0, p9+10)
+	s.doAck(0, p9)
+	s.doSetConsumed(1, app)
+	s.doAck(1, p9+3)
+	s.doSync()
+	s.doGC(rng)
+	s.pages()
+	s.doReopen(rng)
+	s.pages()
+	// into page 10, GC (page 9 goes, page 10 must stay), read back
+	p10 := int64(10*ipp + 3 + rng.Intn(20))
+	s.doSetConsumed(0, p10+5)
+	s.doAck(0, p10)
+	s.doAck(1, p10+2)
+	s.doSync()
+	s.doGC(rng)
+	s.pages()
+	for _, m := range []int64{p10 - 1, p10, p10 + 1, app, app + 1} {
+		s.get(m)
+	}
+	s.doAppend(3)
+	s.doReopen(rng)
+	s.pages()
+	s.doConsume(0)
+	s.get(s.fq.Queue().AppendedSeq())
+}
+
+// caseResetPersist: explicit resets followed by close/reopen before any new Ack — the reset is
+// exempt from the ordering clause, not from persistence (seeded change c06-11).
+func (s *sim) caseResetPersist(rng *rand.Rand) {
+	s.doCreate(0)
+	s.doCreate(1)
+	for i := 0; i < 10; i++ {
+		s.doAppend(i + 1)
+	}
+	for i := 0; i < 10; i++ {
+		s.doConsume(0)
+	}
+	s.doAck(0, 9)
+	for i := 0; i < 5; i++ {
+		s.doConsume(1)
+	}
+	s.doAck(1, 3)
+	s.doSetAppended(4) // backwards, below group 0's persisted ack
+	s.doReopen(rng)
+	s.doAppend(7)
+	s.doConsume(0)
+	s.doSetSeq(1, 2) // SetSeq on one group, below the queue ack
+	s.doReopen(rng)
+	s.doSetConsumed(0, 1) // out of window
+	s.doReopenLazy(rng)
+	s.lookupAll()
+	s.doSync()
+	s.pages()
 }
 
 // ---- random histories
